@@ -149,6 +149,16 @@ def rand_dist(rng, mean_units, unit_mass, families=None, safe=True):
     fam = rng.choice(families or ["gauss", "uniform", "log_normal", "poisson", "schulz_zimm", "flory_schulz"])
     m = max(1.0, mean_units * unit_mass)
     pf = rng.randrange(6)
+    if rng.random() < 0.15 and fam in ("gauss", "log_normal", "schulz_zimm", "flory_schulz"):
+        # parameters that use the whole mantissa
+        f = rng.uniform(0.9, 1.1)
+        if fam == "gauss":
+            return DistAst("gauss", (m * f, m * rng.uniform(0.03, 0.4)), pf, rng.random() < 0.7)
+        if fam == "log_normal":
+            return DistAst("log_normal", (m * f, rng.uniform(1.02, 1.6)), pf, rng.random() < 0.7)
+        if fam == "schulz_zimm":
+            return DistAst("schulz_zimm", (m * f * rng.uniform(1.1, 1.9), m * f), pf, rng.random() < 0.7)
+        return DistAst("flory_schulz", (min(0.5, 2.0 / m) * f,), pf)
     if fam == "gauss":
         return DistAst("gauss", (round(m, 1), round(m * rng.choice([0.0, 0.05, 0.2, 0.4]), 1)), pf, rng.random() < 0.7)
     if fam == "uniform":
@@ -248,6 +258,8 @@ class Ctx:
         return plain_token(smi)
 
     def weight(self):
+        if self.rng.random() < 0.12:
+            return self.rng.uniform(0.05, 9.0)  # a value that uses the whole mantissa: printing must not round it
         return self.rng.choice([None, None, 2.0, 0.5, 3.0, 0.25, 10.0, 1.0, 0.0, 2.0])
 
 
